@@ -231,6 +231,15 @@ func (s *slicer) sourcesAt(v ssa.Value, at *ssa.BasicBlock) []srcInfo {
 		})
 		return n > 0
 	}
+	throughPointer := func(addr ssa.Value, mult int64, depth int) int {
+		n := 0
+		for _, si := range s.pointerArgSources(addr) {
+			n++
+			si.Mult *= mult
+			add(si)
+		}
+		return n
+	}
 	recCtx = func(v ssa.Value, mult int64, depth int, ctx *ssa.BasicBlock) {
 		if v == nil || depth > 60 || seen[key{v, mult, ctx}] {
 			return
@@ -390,6 +399,7 @@ func (s *slicer) sourcesAt(v ssa.Value, at *ssa.BasicBlock) []srcInfo {
 					// the variable's address sits in a table of {name, target} entries and is written through the
 					// pointer selected by comparing the names with the option given: the value written that way
 					// is the value given for the option the entry names
+					n += throughPointer(a, mult, depth)
 					for _, name := range pointerTableNames(a) {
 						if vals := storesThroughTablePointer(s.fn, a); len(vals) > 0 {
 							n++
@@ -413,6 +423,7 @@ func (s *slicer) sourcesAt(v ssa.Value, at *ssa.BasicBlock) []srcInfo {
 										rec(st.Val, mult, depth+1)
 									}
 								}
+								n += throughPointer(fa2, mult, depth)
 							}
 						}
 						// plus whole-struct initialisation
@@ -921,5 +932,55 @@ func storesThroughTablePointer(fn *ssa.Function, a *ssa.Alloc) []ssa.Instruction
 			out = append(out, in)
 		}
 	})
+	return out
+}
+
+// pointerArgSources: addr (a local variable or a field of one) is handed to a module helper that stores
+// through the pointer (overrideInt(&bufSize, routeConfig.BufSize)): the sources of the values the
+// helper stores, with its parameters bound to the arguments of that call.
+func (s *slicer) pointerArgSources(addr ssa.Value) []srcInfo {
+	var out []srcInfo
+	refs := addr.Referrers()
+	if refs == nil || s.depth >= 3 {
+		return nil
+	}
+	for _, r := range *refs {
+		call, ok := r.(*ssa.Call)
+		if !ok {
+			continue
+		}
+		g := call.Call.StaticCallee()
+		if g == nil || g.Blocks == nil || !ModuleFunc(g) {
+			continue
+		}
+		for ai, a := range call.Call.Args {
+			if a != addr || ai >= len(g.Params) {
+				continue
+			}
+			ptr := g.Params[ai]
+			sub := newSlicer(s.p, g)
+			sub.depth = s.depth + 1
+			allInstrs(g, func(in ssa.Instruction) {
+				st, ok := in.(*ssa.Store)
+				if !ok || st.Addr != ssa.Value(ptr) {
+					return
+				}
+				for _, si := range sub.sources(st.Val) {
+					if si.Kind == "param" && si.Param != nil {
+						for pi, p := range g.Params {
+							if p == si.Param && pi < len(call.Call.Args) {
+								for _, x := range s.sourcesAt(call.Call.Args[pi], call.Block()) {
+									x.Mult *= si.Mult
+									out = append(out, x)
+								}
+							}
+						}
+						continue
+					}
+					out = append(out, si)
+				}
+			})
+		}
+	}
 	return out
 }
